@@ -1046,5 +1046,10 @@ func (c *checker) match(n *hs.Match) *hs.Type {
 	if !hasDefault && !compat(hs.TNull, res, copts{allowFn: true}) {
 		c.viol(RBranches, n, "match without default arm yields %s", TypeString(res))
 	}
+	// without a default arm it is possible that no arm matches: the match then completes (with
+	// null) even if every arm diverges
+	if !hasDefault && res.K == hs.KNever {
+		return hs.TNull
+	}
 	return res
 }
